@@ -91,43 +91,124 @@ class Poly:
 Poly.zero = Poly()
 Poly.one = Poly({(): 1})
 
-MODES = ("bool", "maxtimes", "maxplus", "poly", "float", "real", "log")
+MODES = ("bool", "maxtimes", "maxplus", "poly", "float", "real", "log", "expect")
 EXACT = {"bool", "poly"}
 
 
+# ---------------------------------------------------------------------------
+# Shadow weights: the reference models compute in their OWN arithmetic, never
+# with the operators of genlm/grammar/semiring.py, so that a defect in a shipped
+# weight type shows up as a wrong parser / transformation / total result.
+
+
+class SW:
+    __slots__ = ("score",)
+
+    def __init__(self, score):
+        self.score = score
+
+    def __eq__(self, other):
+        return type(other) is type(self) and self.score == other.score
+
+    def __ne__(self, other):
+        return not self.__eq__(other)
+
+    def __hash__(self):
+        return hash((type(self).__name__, self.score))
+
+    def __repr__(self):
+        return f"{type(self).__name__}({self.score!r})"
+
+
+class SBool(SW):
+    def __add__(self, o):
+        return SBool(self.score or o.score)
+
+    def __mul__(self, o):
+        return SBool(self.score and o.score)
+
+
+class SMaxTimes(SW):
+    def __add__(self, o):
+        return self if self.score >= o.score else o
+
+    def __mul__(self, o):
+        return SMaxTimes(self.score * o.score)
+
+
+class SMaxPlus(SW):
+    def __add__(self, o):
+        return self if self.score >= o.score else o
+
+    def __mul__(self, o):
+        return SMaxPlus(self.score + o.score)
+
+
+class SReal(SW):
+    def __add__(self, o):
+        return SReal(self.score + o.score)
+
+    def __mul__(self, o):
+        return SReal(self.score * o.score)
+
+
+class SLog(SW):
+    def __add__(self, o):
+        a, b = self.score, o.score
+        if a == -math.inf:
+            return o
+        if b == -math.inf:
+            return self
+        m = a if a >= b else b
+        return SLog(m + math.log(math.exp(a - m) + math.exp(b - m)))
+
+    def __mul__(self, o):
+        if self.score == -math.inf or o.score == -math.inf:
+            return SLog(-math.inf)
+        return SLog(self.score + o.score)
+
+
+class SPair(SW):
+    """First-order expectation semiring written out: (p, r)."""
+
+    def __add__(self, o):
+        return SPair((self.score[0] + o.score[0], self.score[1] + o.score[1]))
+
+    def __mul__(self, o):
+        p1, r1 = self.score
+        p2, r2 = o.score
+        return SPair((p1 * p2, p1 * r2 + p2 * r1))
+
+
 class Mode:
-    """Adapter for one semiring mode."""
+    """Adapter for one semiring mode: library weights on one side, shadow
+    weights (reference arithmetic) on the other, and their comparison."""
 
     def __init__(self, name):
         import genlm.grammar.semiring as sr
 
         self.name = name
         self.exact = name in EXACT
-        if name == "bool":
-            self.R = sr.Boolean
-        elif name == "maxtimes":
-            self.R = sr.MaxTimes
-        elif name == "maxplus":
-            self.R = sr.MaxPlus
-        elif name == "poly":
-            self.R = Poly
-        elif name == "float":
-            self.R = sr.Float
-        elif name == "real":
-            self.R = sr.Real
-        elif name == "log":
-            self.R = sr.Log
-        else:
-            raise ValueError(name)
-        self.zero = self.R.zero
-        self.one = self.R.one
-        if name == "float":
-            self.zero, self.one = 0.0, 1.0
+        self.R = {"bool": sr.Boolean, "maxtimes": sr.MaxTimes, "maxplus": sr.MaxPlus, "poly": Poly,
+                  "float": sr.Float, "real": sr.Real, "log": sr.Log, "expect": sr.Expectation}[name]
+        self.S = {"bool": SBool, "maxtimes": SMaxTimes, "maxplus": SMaxPlus, "poly": Poly, "float": None,
+                  "real": SReal, "log": SLog, "expect": SPair}[name]
+        # reference side (shadow) constants
+        self.zero, self.one = {
+            "bool": (SBool(False), SBool(True)),
+            "maxtimes": (SMaxTimes(Fraction(0)), SMaxTimes(Fraction(1))),
+            "maxplus": (SMaxPlus(-math.inf), SMaxPlus(0)),
+            "poly": (Poly.zero, Poly.one),
+            "float": (0.0, 1.0),
+            "real": (SReal(0.0), SReal(1.0)),
+            "log": (SLog(-math.inf), SLog(0.0)),
+            "expect": (SPair((0.0, 0.0)), SPair((1.0, 0.0))),
+        }[name]
         # float-like modes: relative convergence criterion (values of short
         # strings can be tiny); Log scores are already logarithms -> absolute
         self.alg = Alg(self.zero, self.one, exact=name in ("bool", "poly", "maxtimes", "maxplus"),
-                       metric=self._dist, relative=name in ("float", "real"),
-                       eps=1e-14 if name in ("float", "real") else 1e-13)
+                       metric=self._dist, relative=name in ("float", "real", "expect"),
+                       eps=1e-14 if name in ("float", "real", "expect") else 1e-13)
 
     # abstract (decoded JSON) weight -> library weight
     def weight(self, a):
@@ -146,24 +227,70 @@ class Mode:
             return self.R(float(a))
         if n == "log":
             return self.R(math.log(a)) if a > 0 else self.R.zero
+        if n == "expect":
+            return self.R(float(a[0]), float(a[1]))
+        raise ValueError(n)
+
+    # abstract (decoded JSON) weight -> shadow weight of the reference
+    def sweight(self, a):
+        n = self.name
+        if n == "bool":
+            return SBool(bool(a))
+        if n == "maxtimes":
+            return SMaxTimes(Fraction(a[0], a[1]) if isinstance(a, (list, tuple)) else Fraction(a))
+        if n == "maxplus":
+            return SMaxPlus(a)
+        if n == "poly":
+            return Poly.from_json(a) if isinstance(a, list) else Poly.var(a)
+        if n == "float":
+            return float(a)
+        if n == "real":
+            return SReal(float(a))
+        if n == "log":
+            return SLog(math.log(a)) if a > 0 else SLog(-math.inf)
+        if n == "expect":
+            return SPair((float(a[0]), float(a[1])))
+        raise ValueError(n)
+
+    def to_shadow(self, w):
+        """Library weight (e.g. of a transformed grammar) -> shadow weight."""
+        n = self.name
+        if n in ("poly", "float"):
+            return float(w) if n == "float" else w
+        sc = w.score
+        if n == "bool":
+            return SBool(bool(sc))
+        if n == "maxtimes":
+            return SMaxTimes(sc if isinstance(sc, Fraction) else Fraction(sc))
+        if n == "maxplus":
+            return SMaxPlus(sc)
+        if n == "real":
+            return SReal(float(sc))
+        if n == "log":
+            return SLog(float(sc))
+        if n == "expect":
+            return SPair((float(sc[0]), float(sc[1])))
         raise ValueError(n)
 
     def scalar(self, v):
-        """Comparable plain value of a library weight."""
+        """Comparable plain value of a library or shadow weight."""
         n = self.name
-        if n == "poly":
+        if n in ("poly", "float"):
             return v
-        if n == "float":
-            return v
+        sc = v.score if hasattr(v, "score") else v
         if n == "bool":
-            return bool(v.score) if hasattr(v, "score") else bool(v)
-        return v.score
+            return bool(sc)
+        if n == "expect":
+            return (float(sc[0]), float(sc[1]))
+        return sc
 
     def _dist(self, a, b):
         a, b = self.scalar(a), self.scalar(b)
         if a == b:
             return 0.0
         try:
+            if isinstance(a, tuple):
+                return max(abs(float(x) - float(y)) for x, y in zip(a, b))
             return abs(float(a) - float(b))
         except Exception:
             return float("inf")
@@ -176,14 +303,22 @@ class Mode:
             return isinstance(v, (int, float)) and not isinstance(v, bool) or hasattr(v, "dtype")
         return isinstance(v, self.R)
 
-    def close(self, got, want, rtol=1e-6, atol=1e-9):
-        """Semantic equality of a library result with a reference value."""
-        if not self.well_typed(got):
+    def close(self, got, want, rtol=1e-6, atol=1e-9, typed=True):
+        """Semantic equality of a library result with a reference (shadow) value
+        (typed=False: both sides are reference values)."""
+        if typed and not self.well_typed(got):
             return False
         n = self.name
-        if n in ("bool", "poly"):
+        if n == "poly":
             return got == want
         a, b = self.scalar(got), self.scalar(want)
+        if n == "bool":
+            return a == b
+        if n == "expect":
+            return all(self._num_close(x, y, rtol, atol) for x, y in zip(a, b))
+        return self._num_close(a, b, rtol, atol)
+
+    def _num_close(self, a, b, rtol, atol):
         if a == b:
             return True
         try:
@@ -192,22 +327,27 @@ class Mode:
             return False
         if math.isnan(a) or math.isnan(b) or math.isinf(a) or math.isinf(b):
             return False
-        if n == "log":
-            # compare in probability space as well as log space
-            return abs(a - b) <= 1e-6 or abs(math.exp(a) - math.exp(b)) <= atol
-        if n == "maxplus":
+        if self.name == "log":
+            return abs(a - b) <= 1e-6  # log space: relative accuracy of the weight
+        if self.name == "maxplus":
             return abs(a - b) <= 1e-9
         return abs(a - b) <= atol + rtol * max(abs(a), abs(b))
 
     def is_zero(self, v):
+        """Zero test for library or shadow values."""
         if self.name == "float":
             return v == 0
-        return v == self.R.zero
+        if self.name == "poly":
+            return v == Poly.zero
+        return self.scalar(v) == self.scalar(self.zero)
 
     def show(self, v):
         if self.name == "poly":
             return repr(v)
-        s = self.scalar(v) if self.well_typed(v) else v
+        try:
+            s = self.scalar(v)
+        except Exception:
+            s = v
         if isinstance(s, Fraction):
             return f"{s.numerator}/{s.denominator}"
         return repr(s)
